@@ -6,6 +6,5 @@ CONSTANTS LgK = 5
  MinLgK = 5
  RebuildPivot = 33
  Depth = 150
- OutDir = "/verif/build/gen_theta"
 CONSTRAINT Collect
 CHECK_DEADLOCK FALSE
